@@ -63,6 +63,7 @@ type Run struct {
 	hook         *spinHook
 	bubble       string // id of this run's synctest bubble
 	bodyDone     atomic.Bool
+	yields       int
 	MaxSteps     int
 	peers        []*Peer
 	simEnd       time.Duration
@@ -220,6 +221,41 @@ func (r *Run) freezeDigest() {
 
 func (r *Run) OnCleanup(f func()) { r.cleanup = append(r.cleanup, f) }
 
+// YieldsOn turns every lock acquisition and release of the code under test
+// into a scheduling point until YieldsOff: one recorded choice seeds a private
+// stream that decides, per point, whether the running goroutine steps aside
+// for the other runnable ones (one in four does). Value 0 means no yields, so
+// that minimisation removes them when they do not matter. The order in which
+// the points are reached is itself deterministic (one P, no asynchronous
+// preemption), so the schedule replays from the choice vector.
+func (r *Run) YieldsOn(label string) {
+	seed := uint64(r.Ch.Pick(1<<16, label))
+	if seed == 0 {
+		simrt.Yield = nil
+		return
+	}
+	state := seed*0x9E3779B97F4A7C15 + uint64(r.Idx)
+	simrt.Yield = func() {
+		state += 0x9E3779B97F4A7C15
+		z := state
+		z = (z ^ (z >> 30)) * 0xBF58476D1CE4E5B9
+		z = (z ^ (z >> 27)) * 0x94D049BB133111EB
+		z ^= z >> 31
+		if z&3 == 0 {
+			r.yields++
+			runtime.Gosched()
+		}
+	}
+}
+
+func (r *Run) YieldsOff() {
+	simrt.Yield = nil
+	if r.yields > 0 {
+		r.CountN("lock_yields", r.yields)
+		r.yields = 0
+	}
+}
+
 // ---------------------------------------------------------------- spin detector
 
 // socketace logs inside its accept loop; a goroutine that emits the same
@@ -371,6 +407,7 @@ func Execute(t *testing.T, r *Run, body func(r *Run)) (leaked int, hung bool) {
 			func() {
 				defer func() {
 					// orderly teardown whatever the body did
+					simrt.Yield = nil
 					for i := len(r.cleanup) - 1; i >= 0; i-- {
 						func() {
 							defer func() { recover() }()
@@ -475,6 +512,46 @@ func GoroutineLedger() map[string]int {
 			continue
 		}
 		out[site]++
+	}
+	return out
+}
+
+// GoroutineStacks returns the stack stanzas of the goroutines of the current
+// bubble whose creation site contains any of the given substrings (diagnostics
+// attached to a leak verdict).
+func GoroutineStacks(sites []string) []string {
+	buf := make([]byte, 1<<20)
+	for {
+		k := runtime.Stack(buf, true)
+		if k < len(buf) {
+			buf = buf[:k]
+			break
+		}
+		buf = make([]byte, 2*len(buf))
+	}
+	stanzas := strings.Split(string(buf), "\n\n")
+	if len(stanzas) == 0 {
+		return nil
+	}
+	bubble := bubbleOf(stanzas[0])
+	var out []string
+	for i, g := range stanzas {
+		if i == 0 || bubbleOf(g) != bubble {
+			continue
+		}
+		idx := strings.LastIndex(g, "created by ")
+		if idx < 0 {
+			continue
+		}
+		for _, s := range sites {
+			if s != "" && strings.Contains(g[idx:], s) {
+				if len(g) > 3000 {
+					g = g[:3000]
+				}
+				out = append(out, g)
+				break
+			}
+		}
 	}
 	return out
 }
